@@ -539,6 +539,21 @@ func runC15(c *core.Ctx) {
 				recv := instant
 				for a, k := range lin.T {
 					v := pf.AtomValue(a)
+					// _, month, day := t.Date(); hour, minute, second := t.Clock(): the components by position
+					if ex, isEx := strip(v).(*ssa.Extract); v != nil && isEx {
+						if tc, isTC := ex.Tuple.(*ssa.Call); isTC && tc.Call.StaticCallee() != nil && tc.Call.StaticCallee().Signature.Recv() != nil && tc.Call.StaticCallee().Signature.Recv().Type().String() == "time.Time" {
+							name := map[string][]string{"Date": {"Year", "Month", "Day"}, "Clock": {"Hour", "Minute", "Second"}}[tc.Call.StaticCallee().Name()]
+							if ex.Index < len(name) {
+								if recv == nil {
+									recv = tc.Call.Args[0]
+								} else if recv != tc.Call.Args[0] {
+									ok, why = false, "the components are taken from different instants"
+								}
+								got[name[ex.Index]] += k
+								continue
+							}
+						}
+					}
 					call, isC := strip(v).(*ssa.Call)
 					if v == nil || !isC || call.Call.StaticCallee() == nil || call.Call.StaticCallee().Signature.Recv() == nil || call.Call.StaticCallee().Signature.Recv().Type().String() != "time.Time" {
 						ok, why = false, "term "+a+" is not a time.Time component"
